@@ -42,8 +42,11 @@ func newFlowBuffer(factor int) *flowBuffer {
 func (b *flowBuffer) PutOne(ctx context.Context, m Completed) (chan RedisResult, error) {
 	select {
 	case cmd := <-b.f:
+		verifEv(evFTake, verifCmdID(m), verifChID(cmd.ch))
 		cmd.one = m
+		verifSeqLock()
 		b.w <- cmd
+		verifEvUnlock(evFPutW, verifCmdID(m), verifChID(cmd.ch))
 		return cmd.ch, nil
 	case <-ctx.Done():
 		return nil, ctx.Err()
@@ -53,8 +56,11 @@ func (b *flowBuffer) PutOne(ctx context.Context, m Completed) (chan RedisResult,
 func (b *flowBuffer) PutMulti(ctx context.Context, m []Completed, resps []RedisResult) (chan RedisResult, error) {
 	select {
 	case cmd := <-b.f:
+		verifEv(evFTake, verifCmdID(m[0]), verifChID(cmd.ch))
 		cmd.multi, cmd.resps = m, resps
+		verifSeqLock()
 		b.w <- cmd
+		verifEvUnlock(evFPutW, verifCmdID(m[0]), verifChID(cmd.ch))
 		return cmd.ch, nil
 	case <-ctx.Done():
 		return nil, ctx.Err()
@@ -66,8 +72,12 @@ func (b *flowBuffer) NextWriteCmd() (one Completed, multi []Completed, ch chan R
 	select {
 	case cmd := <-b.w:
 		one, multi, ch = cmd.one, cmd.multi, cmd.ch
+		verifEv(evFWTake, verifChID(cmd.ch), 0)
+		verifSeqLock()
 		b.r <- cmd
+		verifEvUnlock(evFPutR, verifChID(cmd.ch), 0)
 	default:
+		verifEv(evFWNone, 0, 0)
 	}
 	return
 }
@@ -76,7 +86,10 @@ func (b *flowBuffer) NextWriteCmd() (one Completed, multi []Completed, ch chan R
 func (b *flowBuffer) WaitForWrite() (one Completed, multi []Completed, ch chan RedisResult) {
 	cmd := <-b.w
 	one, multi, ch = cmd.one, cmd.multi, cmd.ch
+	verifEv(evFWTake, verifChID(cmd.ch), 1)
+	verifSeqLock()
 	b.r <- cmd
+	verifEvUnlock(evFPutR, verifChID(cmd.ch), 0)
 	return
 }
 
@@ -86,7 +99,9 @@ func (b *flowBuffer) NextResultCh() (one Completed, multi []Completed, ch chan R
 	case cmd := <-b.r:
 		b.c = &cmd.ch
 		one, multi, ch, resps = cmd.one, cmd.multi, cmd.ch, cmd.resps
+		verifEv(evFRTake, verifChID(cmd.ch), 0)
 	default:
+		verifEv(evFRNone, 0, 0)
 	}
 	return
 }
@@ -94,7 +109,9 @@ func (b *flowBuffer) NextResultCh() (one Completed, multi []Completed, ch chan R
 // FinishResult should be only called by one dedicated thread
 func (b *flowBuffer) FinishResult() {
 	if b.c != nil {
+		verifSeqLock()
 		b.f <- queuedCmd{ch: *b.c}
+		verifEvUnlock(evFPutF, verifChID(*b.c), 0)
 		b.c = nil
 	}
 }
